@@ -17,6 +17,11 @@ META = {
 TOL = 1e-9
 
 
+OPT_DEFAULTS = {"respect_switches": True, "multi": True, "include_out_of_service": False, "nogobuses": None,
+                "notravbuses": None, "include_lines": True, "include_impedances": True, "include_dclines": True,
+                "include_trafos": True, "include_trafo3ws": True, "include_switches": True}
+
+
 def _h(x):
     return hashlib.sha1(repr(x).encode()).hexdigest()[:10]
 
@@ -130,7 +135,8 @@ def _viol(case, o, clause, detail, extra_tokens=()):
     toks += list(extra_tokens)
     d = dict(detail)
     d["opt"] = o
-    return core.violation(clause, d, case={"base": case["base"], "devs": case["devs"], "only": o},
+    only = {k: v for k, v in o.items() if k not in OPT_DEFAULTS or v != OPT_DEFAULTS[k]}   # defaults omitted: minimal first
+    return core.violation(clause, d, case={"base": case["base"], "devs": case["devs"], "only": only},
                           tokens=toks, klass=clause)
 
 
@@ -180,7 +186,7 @@ def _emulate_order_defect(T, o):
     for d in dead:
         nbrs = {v for v, _, _ in adj[d]}
         for u in nbrs:
-            if not any(v == d for v, _, _ in adj[u]):
+            if u not in adj or not any(v == d for v, _, _ in adj[u]):
                 return "KeyError"
             adj[u] = [e for e in adj[u] if e[0] != d]
         del adj[d]
@@ -326,6 +332,7 @@ def run_case(case):
     sigs = set()
     only = case.get("only")
     if only is not None:
+        only = dict(OPT_DEFAULTS, **only)
         if only.get("dist"):
             eval_distance(top, net, T, case, only, out)
         else:
